@@ -23,6 +23,10 @@ _UNSUPPORTED_ZID_CHARS: Final[tuple[str, ...]] = (
 )
 
 
+# Stored (instead of the next ID) once every ID of a date has been handed out.
+_NO_IDS_LEFT: Final = ""
+
+
 class ZIDManager:
     """Responsible for knowing what the next zorg ID is based on the date."""
 
@@ -37,6 +41,10 @@ class ZIDManager:
         date_part = date.strftime("%Y%m%d")[2:]
         next_id_map = self._next_id_map
         id_part = next_id_map.get(date_part, "00")
+        if id_part == _NO_IDS_LEFT:
+            raise RuntimeError(
+                f"Ran out of zorg IDs to allocate! | date={date_part}"
+            )
         # pylint: disable=unsupported-assignment-operation
         next_id_map[date_part] = _get_next_id(id_part)
         self._write_to_disk(next_id_map)
@@ -81,9 +89,9 @@ def _get_next_id(last_id: str) -> str:
         # zettel org with a lot of notes that need ZIDs.
         return "000"
     elif next_ch is None:
-        raise RuntimeError(
-            f"Ran out of zorg IDs to allocate! | last_id={last_id}"
-        )
+        # {last_id} is the very last ID of its date. It can still be handed
+        # out, but nothing can be allocated after it.
+        return _NO_IDS_LEFT
 
     next_id = last_id[:idx] + next_ch
     while len(next_id) < len(last_id):
